@@ -275,10 +275,10 @@ class World(BaseWorld):
             # is not a diagram that was handed back (recorded, not a violation)
             self.note("monitor_fired_before_a_refusal", len(W.MON.fired))
             W.MON.fired.clear()
-        if W.MON.fired:
-            msg, cls = W.MON.fired[0]
-            n = len(W.MON.fired)
-            W.MON.fired.clear()
+        alive = W.surviving_firings()
+        if alive:
+            msg, cls = alive[0]
+            n = len(alive)
             raise self.vio("monitor", "while executing %s the library built an ill-typed %s on its trusted "
                            "fast path: %s (%d firings)" % (op["op"] + ":" + str(op.get("f", op.get("kind", ""))),
                                                            cls, msg, n))
@@ -292,6 +292,7 @@ class World(BaseWorld):
         self.check_pool()
         self.counters["monitor_constructions_seen"] = W.MON.calls
         self.counters["monitor_fastpath_rescanned"] = W.MON.fast
+        self.counters["monitor_firings_on_discarded_temporaries"] = W.MON.discarded
         W.MON.calls = W.MON.fast = 0
         for t in self.tasks.values():
             if t["status"] == "live":
